@@ -215,3 +215,28 @@ func known(id string) bool {
 	kfActive[id] = act
 	return act
 }
+
+// regressCases decodes every committed regression case of a property (regress/<ID>/*.json) and
+// hands it to run; triaged shrunk failures are replayed first by every run.
+func regressCases(t testing.TB, prop string, mk func() interface{}, run func(name string, c interface{})) {
+	dir := os.Getenv("VERIF_REGRESS")
+	if dir == "" {
+		dir = filepath.Join("/verif/regress", prop)
+	}
+	files, _ := filepath.Glob(filepath.Join(dir, "*.json"))
+	for _, f := range files {
+		b, err := os.ReadFile(f)
+		if err != nil {
+			continue
+		}
+		var env replayEnvelope
+		if json.Unmarshal(b, &env) != nil || env.Property != prop {
+			continue
+		}
+		c := mk()
+		if json.Unmarshal(env.Case, c) != nil {
+			continue
+		}
+		run(filepath.Base(f), c)
+	}
+}
